@@ -10,7 +10,7 @@
     decides those clauses on every explored input directly on the implementation's output, and ties
     the recovery model (LR/Driver.v error_recovery) to Parser::error_recovery by in-Coq evaluation. *)
 From Coq Require Import List ZArith.
-From LV Require Import LR.Driver LR.Validator LR.Safety LR.ValidatorSpec LR.Soundness LR.Completeness LR.RecoverySound LR.Main.
+From LV Require Import LR.Driver LR.Validator LR.Safety LR.ValidatorSpec LR.Soundness LR.Completeness LR.RecoverySound LR.TokenAccount LR.Main.
 Import ListNotations.
 
 Theorem C16_sentences_need_no_recovery : forall A C, valid A C = true ->
@@ -44,3 +44,23 @@ Proof.
   apply PeanoNat.Nat.ltb_lt in H4. unfold err_col. apply PeanoNat.Nat.sub_lt; [exact H4|constructor].
 Qed.
 Print Assumptions C16_recovered_tree_is_a_derivation.
+
+(** token accounting, for ANY tables (validated or not), any input, oracle and budget, with or without
+    recovery: what a returned tree records of the input -- its leaves and the dropped_tokens lists of
+    its error nodes, read left to right -- is a subsequence of the input tokens in input order.  So the
+    leaves are a subsequence of the input, every dropped_tokens list holds input tokens in order, and
+    no token is recorded twice or out of order across leaves and error nodes. *)
+Theorem C16_recorded_tokens_are_a_subsequence_of_the_input : forall A orc fuel input v s,
+  drive A orc fuel input = (ROk v, s) -> Subseq (rec v) (toks input).
+Proof. exact recorded_tokens_are_a_subsequence. Qed.
+Print Assumptions C16_recorded_tokens_are_a_subsequence_of_the_input.
+
+Theorem C16_leaves_are_a_subsequence_of_the_input : forall A orc fuel input v s,
+  drive A orc fuel input = (ROk v, s) -> Subseq (yield v) (toks input).
+Proof. exact leaves_are_a_subsequence. Qed.
+Print Assumptions C16_leaves_are_a_subsequence_of_the_input.
+
+Theorem C16_dropped_lists_hold_input_tokens_in_order : forall A orc fuel input v s,
+  drive A orc fuel input = (ROk v, s) -> Forall (fun d => Subseq d (toks input)) (drops v).
+Proof. exact dropped_lists_are_subsequences. Qed.
+Print Assumptions C16_dropped_lists_hold_input_tokens_in_order.
